@@ -155,7 +155,7 @@ func TestWorker(t *testing.T) {
 				flush()
 			}
 		}
-		if i&15 == 0 && time.Since(start) > budget {
+		if out.Runs&15 == 0 && time.Since(start) > budget {
 			break
 		}
 		seed := RunSeed(base, id, i)
